@@ -85,6 +85,11 @@ func (ie *ImageExtractor) Extract(node *html.Node) webdoc.Element {
 		}
 
 		figCaption := domutil.GetFirstElementByTagName(node, "figcaption")
+		if figCaption != nil && ie.hasInvisibleAncestor(figCaption, node) {
+			// A caption inside a hidden part of the figure is no caption.
+			figCaption = nil
+		}
+
 		if figCaption == nil {
 			figCaption = ie.createFigCaption(node)
 		} else {
@@ -170,6 +175,17 @@ func (ie *ImageExtractor) findRealFigureImage(figure *html.Node) *html.Node {
 	}
 
 	return nil
+}
+
+// hasInvisibleAncestor checks if there is an invisible element between
+// node and the specified root.
+func (ie *ImageExtractor) hasInvisibleAncestor(node *html.Node, root *html.Node) bool {
+	for parent := node.Parent; parent != nil && parent != root; parent = parent.Parent {
+		if parent.Type == html.ElementNode && !domutil.IsProbablyVisible(parent) {
+			return true
+		}
+	}
+	return false
 }
 
 func (ie *ImageExtractor) processPicture(picture *html.Node) {
